@@ -43,6 +43,27 @@ Definition chk_ind_std (c : bool * Q * list Q * list Q * Z * Q * Q) : bool :=
   then agree 0 0 (ind_std_burn_rule gen_burn_in_correction S1) out (post * post) sl
   else agree gen_ind_std_tol (ind_var_saem old S1 S2) (ind_std_rule gen_ind_std_tol old S1 S2) out (post * post) sl.
 
+(** the mixture std rule of one cluster.  Which rule the running code applies after burn-in (guarded like the plain rule,
+    or the bare square root) is read from the regenerated flag, so the comparison follows the code; the flag itself is
+    pinned by MStepTie.tie_mix_std_unguarded. *)
+Definition agree_unguarded (raw : Q) (r : res Q) (out : Z) (impl_var slack : Q) : bool :=
+  match r, out with
+  | Ok v, 0%Z => close v impl_var slack
+  | Undefined, 2%Z => true
+  (* float rounding may put a variance that is within the slack of 0 on the other side of it *)
+  | Undefined, 0%Z => close raw impl_var slack
+  | Ok v, 2%Z => Qle_bool v slack
+  | _, _ => false
+  end.
+
+Definition chk_mix_std (c : bool * Q * list Q * list Q * Z * Q * Q) : bool :=
+  let '(burn, old, S1, S2, out, post, sl) := c in
+  if gen_uses_burn_rule burn true
+  then agree 0 0 (ind_std_burn_rule gen_burn_in_correction S1) out (post * post) sl
+  else if gen_mix_std_guarded
+       then agree gen_ind_std_tol (ind_var_saem old S1 S2) (ind_std_rule gen_ind_std_tol old S1 S2) out (post * post) sl
+       else agree_unguarded (ind_var_saem old S1 S2) (mix_var_rule old S1 S2) out (post * post) sl.
+
 Definition mk_cell (t : option Q * Q * Q) : cell :=
   let '(y, ym, mm) := t in {| cy := y; c_ym := ym; c_mm := mm |}.
 
